@@ -99,6 +99,7 @@ struct ThreadCtx {
         int ttl;
     };
     std::vector<SbEnt> sb;
+    uint64_t last_lock_seq = 0;           // global sequence number of this thread's latest mutex acquisition (taken inside the critical section)
     int64_t max_timed_request_ns = 0;     // longest time-out a timed lock operation was asked to wait for (harness clears it)
     std::vector<const void*> block_objs;  // mutexes / condvars this thread performed an untimed blocking wait on (harness clears it)
     // fault injection (per thread): the k-th call of maybe_throw() at an enabled site throws
@@ -145,6 +146,7 @@ struct Runtime {
     std::mutex err_mu;
     std::vector<std::string> shadow_errors;
     std::atomic<int> global_held{0};
+    std::atomic<uint64_t> lock_seq{0};   // acquisitions of one mutex get increasing numbers (incremented while the lock is held)
     // ---- serial scheduler (touched only by the token holder / controller)
     int sn = 0;
     SThread sth[MAXT];
@@ -732,6 +734,7 @@ class vm_core {
         }
         c.held.push_back(Held{this, shared});
         rt.global_held.fetch_add(1, std::memory_order_relaxed);
+        c.last_lock_seq = rt.lock_seq.fetch_add(1, std::memory_order_relaxed) + 1;
         if (stale_active(c)) stale_on_lock(c, this);
     }
     void shadow_release(ThreadCtx& c, bool shared)
